@@ -440,7 +440,7 @@ def run(ctx):
                "fields outside the state vector are compared against a fresh mjData except after the simulation ran")
     chain_cfg = "StateAPI_ChainQ.cfg" if ctx.quick else "StateAPI_Chain.cfg"
     mc_cfg = "StateAPI_MCQ.cfg" if ctx.quick else "StateAPI_MC.cfg"
-    nsim = 40 if ctx.quick else 1500
+    nsim = 40 if ctx.quick else 3000
     seen_init = []
 
     def select(blk):
